@@ -16,10 +16,11 @@ def validate_2_arrays(
     # Note: If the input is a pyarrow array, np.asarray produces a read-only ndarray.
     a = np.asarray(a)
     b = np.asarray(b)
-    # Unsigned integers wrap around in differences like y_pred - y_obs.
-    if a.dtype.kind == "u":
+    # Integers wrap around: unsigned ones in differences like y_pred - y_obs, signed
+    # ones narrower than 64 bit in squares of such differences (int32 from 46341 on).
+    if a.dtype.kind == "u" or (a.dtype.kind == "i" and a.dtype.itemsize < 8):
         a = a.astype(np.float64)
-    if b.dtype.kind == "u":
+    if b.dtype.kind == "u" or (b.dtype.kind == "i" and b.dtype.itemsize < 8):
         b = b.astype(np.float64)
     if a.ndim != b.ndim:
         msg = f"Arrays must have the same dimension, got {a.ndim=} and {b.ndim=}."
